@@ -45,6 +45,9 @@ type Fault struct {
 	// NegDB > 0: during the negative resume one database call (the 1+NegDB%8-th) fails, once. A
 	// transient read error on top of changed options / source / files must not turn a refusal into success.
 	NegDB uint32 `json:"neg_db,omitempty"`
+	// Over: the output directory already holds a complete (older) dump and the interrupted run is a forced
+	// re-dump over it; crash positions lie after the removal of the old collection.
+	Over bool `json:"over,omitempty"`
 }
 
 type WL struct {
@@ -85,6 +88,7 @@ func gen(r *rand.Rand) WL {
 			w.Fault.Nested = append(w.Fault.Nested, r.Uint32())
 		}
 		w.Fault.Neg = negVariants[r.IntN(len(negVariants))]
+		w.Fault.Over = r.IntN(8) == 0
 		if w.Fault.Neg != "" && r.IntN(3) == 0 {
 			w.Fault.NegDB = 1 + r.Uint32()%64
 		}
@@ -542,7 +546,32 @@ func (r *runner) crashRun(k, j int, nested []uint32, neg string, negArg uint32) 
 	ctx := context.Background()
 	src := stor.Build(r.w.DB)
 	targets := stor.Targets(r.w.DB)
-	_, rep := r.dump(ctx, src, targets, "simdb", r.opts(false), simos.Plan{FreezeBefore: k, FreezeInWrite: j})
+	first := r.opts(false)
+	if r.w.Fault.Over {
+		// an older complete dump is in the way: dump once, then learn from a logged forced re-dump where the
+		// removal of the old collection ends, and crash the next forced re-dump somewhere after that point
+		if err, _ := r.dump(ctx, stor.Build(r.w.DB), targets, "simdb", r.opts(false), simos.Plan{}); err != nil {
+			return "oracle:reference_dump_failed", "dump before the forced re-dump: " + err.Error()
+		}
+		first.Force = true
+		err, frep := r.dump(ctx, stor.Build(r.w.DB), targets, "simdb", first, simos.Plan{Log: true})
+		if err != nil {
+			return "oracle:dump_failed", "fault-free forced re-dump over a complete dump returned " + err.Error()
+		}
+		r.evals += 2
+		start := 0
+		for i, op := range frep.Log {
+			if op.Kind != "remove" && op.Kind != "removeall" {
+				start = i
+				break
+			}
+		}
+		if n := len(frep.Log) - start; n > 0 {
+			k = start + 1 + (k-1)%n
+		}
+		r.counters["forced_redump_over_complete_dump"]++
+	}
+	_, rep := r.dump(ctx, src, targets, "simdb", first, simos.Plan{FreezeBefore: k, FreezeInWrite: j})
 	r.evals++
 	simh.Tick()
 	tag := fmt.Sprintf("crash at op %d/%d (%s)", k, len(r.refLog), rep.FrozenAt)
